@@ -20,6 +20,11 @@ def build_case(r, name, meta, tup, ff, md, sp, cosmo, n=6, override=True, delta=
     neff = np.array([r.uniform(-2.9, -0.1) for _ in range(n)])
     delta = r.choice([200, 300, 400, 600, 800, 1200, 1600, 2400, 3200, 250.0, 500.0, 1000.0, 2000.5, 210.3]) if delta is None else delta
     mdef = md.SOMean(overdensity=delta)
+    if delta is not None and getattr(build_case, "vary_definition", False) and r.random() < 0.35:
+        # other definitions and a cosmology that differs from the library default: the overdensity the fit sees then depends on the
+        # instance's own cosmology and redshift
+        mdef = r.choice([md.SOCritical(overdensity=float(r.choice([200, 300, 500.0]))), md.SOVirial()])
+        cosmo = cosmo.clone(Om0=r.choice([0.25, 0.4]), H0=r.choice([62.0, 74.0]))
     params = {}
     if override and r.random() < 0.7:
         d = cls._defaults
@@ -34,8 +39,11 @@ def build_case(r, name, meta, tup, ff, md, sp, cosmo, n=6, override=True, delta=
     for c in meta["mro"]:
         loc.update(tr.locals.get(c, {}))
     ns = dict(loc); ns.update({"self": obj, "np": np, "md": md})
-    base = {"nu2": nu2, "m": m, "n_eff": neff, "z": float(z), "delta_c": dc,
-            "delta_halo": float(loc.get("delta_halo", mdef.halo_overdensity_mean(z, cosmo)))}
+    # the overdensity with respect to the mean, computed independently from the mass definition at the instance's own redshift and
+    # cosmology (the documented form is evaluated on this one)
+    dh_ind = float(mdef.halo_overdensity_mean(z, cosmo))
+    base = {"nu2": nu2, "m": m, "n_eff": neff, "z": float(z), "delta_c": dc, "delta_halo": dh_ind}
+    dh_traced = loc.get("delta_halo")
 
     def env_for(tree):
         env = {}
@@ -66,7 +74,8 @@ def build_case(r, name, meta, tup, ff, md, sp, cosmo, n=6, override=True, delta=
         except Exception:
             pass
     calls = list({(a, b): (a, b, c) for a, b, c in calls}.values())
-    return obj, env, calls, {"fit": name, "z": float(z), "delta_c": dc, "delta_halo": base["delta_halo"], "params": params,
+    return obj, env, calls, {"fit": name, "z": float(z), "delta_c": dc, "delta_halo": base["delta_halo"], "delta_halo_traced": (None if dh_traced is None else float(dh_traced)),
+                             "mdef": str(mdef), "Om0": float(cosmo.Om0), "params": params,
                              "sigma": sigma.tolist(), "m": m.tolist(), "n_eff": neff.tolist()}, env_for
 
 
@@ -112,11 +121,18 @@ def run(ctx):
         np.seterr(all="ignore")
         for name, meta in sorted(J["fits"].items()):
             for _ in range(reps):
+                build_case.vary_definition = name in ("Tinker08", "Tinker10", "Behroozi", "Watson")
                 try:
                     obj, env, calls, desc, env_for = build_case(r, name, meta, tup, ff, md, sp, Planck15)
                 except Exception as e:
                     continue   # e.g. Tinker10 parameter overrides that make the constructor raise: outside the fit's domain
                 got = np.asarray(obj.fsigma, float)
+                tr_ = desc.get("delta_halo_traced")
+                if tr_ is not None and not np.isclose(tr_, desc["delta_halo"], rtol=1e-12):
+                    key_ = f"{name}/overdensity-seen-by-fit"
+                    if not any(v["key"] == key_ for v in out["violations"]):
+                        out["violations"].append({"key": key_, "what": f"{name}: the halo overdensity used inside the fit ({tr_:.6g}) is not the mass definition's overdensity w.r.t. the mean at the instance's redshift and cosmology ({desc['delta_halo']:.6g}; {desc['mdef']}, z={desc['z']}, Om0={desc['Om0']})",
+                                                  "replay": {"kind": "c06", "case": {k_: v_ for k_, v_ in desc.items() if k_ not in ("sigma", "m", "n_eff")}}})
                 if name in ("Tinker08", "Tinker10", "Behroozi"):
                     bad = check_interpolated_coefficients(name, obj, desc, env_for)
                     if bad and not any(v["key"] == bad["key"] for v in out["violations"]):
